@@ -73,6 +73,9 @@ Model/Offsets.vos Model/Offsets.vok Model/Offsets.required_vos: Model/Offsets.v 
 Model/Pipe.vo Model/Pipe.glob Model/Pipe.v.beautified Model/Pipe.required_vo: Model/Pipe.v Base/Bytes.vo Model/Backlog.vo
 Model/Pipe.vio: Model/Pipe.v Base/Bytes.vio Model/Backlog.vio
 Model/Pipe.vos Model/Pipe.vok Model/Pipe.required_vos: Model/Pipe.v Base/Bytes.vos Model/Backlog.vos
+Model/PoolProto.vo Model/PoolProto.glob Model/PoolProto.v.beautified Model/PoolProto.required_vo: Model/PoolProto.v 
+Model/PoolProto.vio: Model/PoolProto.v 
+Model/PoolProto.vos Model/PoolProto.vok Model/PoolProto.required_vos: Model/PoolProto.v 
 Model/Rdb.vo Model/Rdb.glob Model/Rdb.v.beautified Model/Rdb.required_vo: Model/Rdb.v Base/Bytes.vo Base/Endian.vo Base/Dec.vo Spec/Crc64.vo Model/Digest.vo Model/Lzf.vo Model/Filter.vo Gen/Crc64.vo Gen/Rdb.vo
 Model/Rdb.vio: Model/Rdb.v Base/Bytes.vio Base/Endian.vio Base/Dec.vio Spec/Crc64.vio Model/Digest.vio Model/Lzf.vio Model/Filter.vio Gen/Crc64.vio Gen/Rdb.vio
 Model/Rdb.vos Model/Rdb.vok Model/Rdb.required_vos: Model/Rdb.v Base/Bytes.vos Base/Endian.vos Base/Dec.vos Spec/Crc64.vos Model/Digest.vos Model/Lzf.vos Model/Filter.vos Gen/Crc64.vos Gen/Rdb.vos
@@ -130,6 +133,12 @@ Proofs/IncrProofs.vos Proofs/IncrProofs.vok Proofs/IncrProofs.required_vos: Proo
 Proofs/PipeProofs.vo Proofs/PipeProofs.glob Proofs/PipeProofs.v.beautified Proofs/PipeProofs.required_vo: Proofs/PipeProofs.v Base/Bytes.vo Base/Table.vo Model/Backlog.vo Model/Pipe.vo Proofs/BacklogProofs.vo
 Proofs/PipeProofs.vio: Proofs/PipeProofs.v Base/Bytes.vio Base/Table.vio Model/Backlog.vio Model/Pipe.vio Proofs/BacklogProofs.vio
 Proofs/PipeProofs.vos Proofs/PipeProofs.vok Proofs/PipeProofs.required_vos: Proofs/PipeProofs.v Base/Bytes.vos Base/Table.vos Model/Backlog.vos Model/Pipe.vos Proofs/BacklogProofs.vos
+Proofs/PoolLink.vo Proofs/PoolLink.glob Proofs/PoolLink.v.beautified Proofs/PoolLink.required_vo: Proofs/PoolLink.v Base/Bytes.vo Model/Filter.vo Model/Workers.vo Model/PoolProto.vo Proofs/WorkersProofs.vo Proofs/PoolProofs.vo
+Proofs/PoolLink.vio: Proofs/PoolLink.v Base/Bytes.vio Model/Filter.vio Model/Workers.vio Model/PoolProto.vio Proofs/WorkersProofs.vio Proofs/PoolProofs.vio
+Proofs/PoolLink.vos Proofs/PoolLink.vok Proofs/PoolLink.required_vos: Proofs/PoolLink.v Base/Bytes.vos Model/Filter.vos Model/Workers.vos Model/PoolProto.vos Proofs/WorkersProofs.vos Proofs/PoolProofs.vos
+Proofs/PoolProofs.vo Proofs/PoolProofs.glob Proofs/PoolProofs.v.beautified Proofs/PoolProofs.required_vo: Proofs/PoolProofs.v Model/PoolProto.vo
+Proofs/PoolProofs.vio: Proofs/PoolProofs.v Model/PoolProto.vio
+Proofs/PoolProofs.vos Proofs/PoolProofs.vok Proofs/PoolProofs.required_vos: Proofs/PoolProofs.v Model/PoolProto.vos
 Proofs/RdbProofs.vo Proofs/RdbProofs.glob Proofs/RdbProofs.v.beautified Proofs/RdbProofs.required_vo: Proofs/RdbProofs.v Base/Bytes.vo Base/Endian.vo Base/Dec.vo Spec/Crc64.vo Gen/Crc64.vo Model/Digest.vo Model/Lzf.vo Model/Rdb.vo Spec/RdbFormat.vo Spec/RdbRecords.vo Proofs/Crc64Proofs.vo Proofs/DigestProofs.vo
 Proofs/RdbProofs.vio: Proofs/RdbProofs.v Base/Bytes.vio Base/Endian.vio Base/Dec.vio Spec/Crc64.vio Gen/Crc64.vio Model/Digest.vio Model/Lzf.vio Model/Rdb.vio Spec/RdbFormat.vio Spec/RdbRecords.vio Proofs/Crc64Proofs.vio Proofs/DigestProofs.vio
 Proofs/RdbProofs.vos Proofs/RdbProofs.vok Proofs/RdbProofs.required_vos: Proofs/RdbProofs.v Base/Bytes.vos Base/Endian.vos Base/Dec.vos Spec/Crc64.vos Gen/Crc64.vos Model/Digest.vos Model/Lzf.vos Model/Rdb.vos Spec/RdbFormat.vos Spec/RdbRecords.vos Proofs/Crc64Proofs.vos Proofs/DigestProofs.vos
@@ -181,9 +190,9 @@ Props/C05.vos Props/C05.vok Props/C05.required_vos: Props/C05.v Base/Bytes.vos B
 Props/C06.vo Props/C06.glob Props/C06.v.beautified Props/C06.required_vo: Props/C06.v Base/Bytes.vo Base/Dec.vo Model/Filter.vo Model/CmdFilter.vo Model/Incr.vo Model/Workers.vo Gen/Crc16.vo Proofs/WorkersProofs.vo
 Props/C06.vio: Props/C06.v Base/Bytes.vio Base/Dec.vio Model/Filter.vio Model/CmdFilter.vio Model/Incr.vio Model/Workers.vio Gen/Crc16.vio Proofs/WorkersProofs.vio
 Props/C06.vos Props/C06.vok Props/C06.required_vos: Props/C06.v Base/Bytes.vos Base/Dec.vos Model/Filter.vos Model/CmdFilter.vos Model/Incr.vos Model/Workers.vos Gen/Crc16.vos Proofs/WorkersProofs.vos
-Props/C07.vo Props/C07.glob Props/C07.v.beautified Props/C07.required_vo: Props/C07.v Base/Bytes.vo Model/Filter.vo Model/Workers.vo Proofs/WorkersProofs.vo
-Props/C07.vio: Props/C07.v Base/Bytes.vio Model/Filter.vio Model/Workers.vio Proofs/WorkersProofs.vio
-Props/C07.vos Props/C07.vok Props/C07.required_vos: Props/C07.v Base/Bytes.vos Model/Filter.vos Model/Workers.vos Proofs/WorkersProofs.vos
+Props/C07.vo Props/C07.glob Props/C07.v.beautified Props/C07.required_vo: Props/C07.v Base/Bytes.vo Model/Filter.vo Model/Workers.vo Model/PoolProto.vo Proofs/WorkersProofs.vo Proofs/PoolProofs.vo Proofs/PoolLink.vo
+Props/C07.vio: Props/C07.v Base/Bytes.vio Model/Filter.vio Model/Workers.vio Model/PoolProto.vio Proofs/WorkersProofs.vio Proofs/PoolProofs.vio Proofs/PoolLink.vio
+Props/C07.vos Props/C07.vok Props/C07.required_vos: Props/C07.v Base/Bytes.vos Model/Filter.vos Model/Workers.vos Model/PoolProto.vos Proofs/WorkersProofs.vos Proofs/PoolProofs.vos Proofs/PoolLink.vos
 Props/C08.vo Props/C08.glob Props/C08.v.beautified Props/C08.required_vo: Props/C08.v Base/Bytes.vo Model/Offsets.vo Proofs/HandoffProofs.vo
 Props/C08.vio: Props/C08.v Base/Bytes.vio Model/Offsets.vio Proofs/HandoffProofs.vio
 Props/C08.vos Props/C08.vok Props/C08.required_vos: Props/C08.v Base/Bytes.vos Model/Offsets.vos Proofs/HandoffProofs.vos
@@ -211,9 +220,9 @@ Props/C15.vos Props/C15.vok Props/C15.required_vos: Props/C15.v Base/Bytes.vos B
 Props/C16.vo Props/C16.glob Props/C16.v.beautified Props/C16.required_vo: Props/C16.v Base/Bytes.vo Model/Filter.vo Model/Rump.vo Model/Rdb.vo Model/Cupcake.vo Model/Restore.vo Proofs/RestoreProofs.vo Proofs/RumpProofs.vo
 Props/C16.vio: Props/C16.v Base/Bytes.vio Model/Filter.vio Model/Rump.vio Model/Rdb.vio Model/Cupcake.vio Model/Restore.vio Proofs/RestoreProofs.vio Proofs/RumpProofs.vio
 Props/C16.vos Props/C16.vok Props/C16.required_vos: Props/C16.v Base/Bytes.vos Model/Filter.vos Model/Rump.vos Model/Rdb.vos Model/Cupcake.vos Model/Restore.vos Proofs/RestoreProofs.vos Proofs/RumpProofs.vos
-Props/C17.vo Props/C17.glob Props/C17.v.beautified Props/C17.required_vo: Props/C17.v Base/Bytes.vo Model/Rdb.vo Model/Cupcake.vo Model/Decode.vo Proofs/DecodeProofs.vo
-Props/C17.vio: Props/C17.v Base/Bytes.vio Model/Rdb.vio Model/Cupcake.vio Model/Decode.vio Proofs/DecodeProofs.vio
-Props/C17.vos Props/C17.vok Props/C17.required_vos: Props/C17.v Base/Bytes.vos Model/Rdb.vos Model/Cupcake.vos Model/Decode.vos Proofs/DecodeProofs.vos
+Props/C17.vo Props/C17.glob Props/C17.v.beautified Props/C17.required_vo: Props/C17.v Base/Bytes.vo Model/Rdb.vo Model/Cupcake.vo Model/Decode.vo Model/PoolProto.vo Proofs/DecodeProofs.vo Proofs/PoolProofs.vo
+Props/C17.vio: Props/C17.v Base/Bytes.vio Model/Rdb.vio Model/Cupcake.vio Model/Decode.vio Model/PoolProto.vio Proofs/DecodeProofs.vio Proofs/PoolProofs.vio
+Props/C17.vos Props/C17.vok Props/C17.required_vos: Props/C17.v Base/Bytes.vos Model/Rdb.vos Model/Cupcake.vos Model/Decode.vos Model/PoolProto.vos Proofs/DecodeProofs.vos Proofs/PoolProofs.vos
 Props/C18.vo Props/C18.glob Props/C18.v.beautified Props/C18.required_vo: Props/C18.v Base/Bytes.vo Model/Backlog.vo Proofs/BacklogProofs.vo
 Props/C18.vio: Props/C18.v Base/Bytes.vio Model/Backlog.vio Proofs/BacklogProofs.vio
 Props/C18.vos Props/C18.vok Props/C18.required_vos: Props/C18.v Base/Bytes.vos Model/Backlog.vos Proofs/BacklogProofs.vos
